@@ -113,7 +113,7 @@ fn post_acquire_body(inside_region: bool) {
             } else if o.op.map(|x| x.0) == Some(0) {
                 oblige!("C07.mutex.post_acquire.blocks_other_contenders", n.st == StView::Blocked && th_view_eq_except_state(&o, &n));
                 // C08: a stored park token is never dropped by a lock operation
-                oblige!("C08.token_kept.mutex_post_acquire", !has_token(&o));
+                oblige!("C08.token_kept.mutex_post_acquire", has_token(&n) == has_token(&o));
             } else {
                 oblige!("C07.mutex.post_acquire.frame_other_threads", th_view_eq(&o, &n));
             }
@@ -166,7 +166,7 @@ fn release_lock_body(inside_region: bool) {
     while i < N {
         let (o, n) = (old.th[i], new.th[i]);
         if i != a && o.op.map(|x| x.0) == Some(0) && o.st == StView::Blocked {
-            oblige!("C07.mutex.release.wakes_blocked_contenders", n.st == (StView::Runnable { unparked: false }) && th_view_eq_except_state(&o, &n));
+            oblige!("C07.mutex.release.wakes_blocked_contenders", n.st == woken(&o) && !n.pending_unpark && th_view_eq_except_state(&o, &n));
         } else if i != a && o.op.map(|x| x.0) == Some(0) && has_token(&o) {
             // C08: a stored park token survives an unlock
             oblige!("C08.token_kept.mutex_release", th_view_eq(&o, &n));
